@@ -61,8 +61,14 @@ def replay_mirror(stmts):
             elif k == "aug":
                 ok = b.aug(t, s["fn"], val(s["value"]))
             else:
-                ok = b.out_op(t, s["fn"], [val(a) for a in s["args"]], s["where"]["mask"] if s.get("where") else None)
+                ok = b.out_op(t, s["fn"], [val(a) for a in s["args"]], s["where"]["mask"] if s.get("where") else None, s["where"]["shape"] if s.get("where") else None)
             assert ok, s
+        elif k == "setshape":
+            if s.get("expect") == "raise":
+                b.stmts.append(dict(s))
+                b._mark()
+            else:
+                assert b.setshape(b.tensors[s["t"]], s["shape"]), s
         elif k == "del":
             b.delete(s["names"])
         elif k == "backward":
@@ -90,6 +96,8 @@ def oracle(stmts, result):
             if n not in obs:
                 msgs.append("after statement %d: tensor %s is missing" % (i, n))
                 continue
+            if obs[n]["shape"] != list(b.tensors[n].shape):
+                msgs.append("after statement %d (%s): %s has shape %s, NumPy gives %s" % (i, stmts[i]["op"], n, obs[n]["shape"], list(b.tensors[n].shape)))
             if obs[n]["data"] != v:
                 msgs.append("after statement %d (%s): %s holds %s, NumPy gives %s" % (i, stmts[i]["op"], n, obs[n]["data"], v))
             if obs[n]["const"] != consts[n]:
@@ -128,9 +136,12 @@ def run(rep, work, tier, seed, props, replay=None):
     viol, known_hits = [], 0
     for i, (b, r) in enumerate(zip(builders, results)):
         msgs = []
-        exc = [(j, o) for j, o in enumerate(r["outcomes"]) if o is not None]
+        exc = [(j, o) for j, o in enumerate(r["outcomes"]) if o is not None and b.stmts[j].get("expect") != "raise"]
+        silent = [j for j, o in enumerate(r["outcomes"]) if o is None and b.stmts[j].get("expect") == "raise"]
         if exc:
             msgs.append("statement %d (%s) raised %s" % (exc[0][0], b.stmts[exc[0][0]]["op"], exc[0][1]))
+        elif silent:
+            msgs.append("statement %d (%s to %s) is refused by NumPy (it would need a copy) but MyGrad accepted it" % (silent[0], b.stmts[silent[0]]["op"], b.stmts[silent[0]].get("shape")))
         else:
             msgs = oracle(b.stmts, r)
         if msgs:
@@ -144,7 +155,8 @@ def run(rep, work, tier, seed, props, replay=None):
     for i, msgs in sorted(viol, key=lambda x: len(builders[x[0]].stmts))[:8]:
         rep.violation({"kind": "MyGrad differs from the same statements on NumPy arrays: " + msgs[0], "stmts": builders[i].stmts, "messages": msgs[:4]})
     # functional model (values only here; gradients are C05)
-    ok_idx = [i for i, r in enumerate(results) if progs.exact_safe(r) and not any(r["outcomes"]) and not getattr(builders[i], "identity_views", None)]
+    ok_idx = [i for i, r in enumerate(results) if progs.exact_safe(r) and not any(o is not None and builders[i].stmts[j].get("expect") != "raise" for j, o in enumerate(r["outcomes"]))
+              and not getattr(builders[i], "identity_views", None)]
     terms = [progs.coq_fcase(builders[i], results[i]) for i in ok_idx]
     bad = []
     if terms:
